@@ -53,9 +53,16 @@ type Walker struct {
 	// Loops is the stack of enclosing loops (for rules that care).
 	Loops []ast.Stmt
 
+	boolDefs map[types.Object]boolDef // boolean locals defined from a condition: b := x == nil || y.Empty()
+
 	cur    uint64 // set of path states at the current program point
 	quiet  int    // >0 while re-walking a loop body for the state fixpoint
 	frames []*loopFrame
+}
+
+type boolDef struct {
+	ver int
+	f   Formula
 }
 
 type loopFrame struct {
@@ -322,7 +329,14 @@ func (w *Walker) Cond(e ast.Expr) Formula {
 			}
 		}
 		return Atom("cmp:" + w.Path(x))
-	case *ast.Ident, *ast.SelectorExpr, *ast.CallExpr, *ast.IndexExpr:
+	case *ast.Ident:
+		if o := w.Info.ObjectOf(x); o != nil {
+			if d, ok := w.boolDefs[o]; ok && d.ver == w.ver[o] {
+				return d.f
+			}
+		}
+		return Atom("b:" + w.Path(e))
+	case *ast.SelectorExpr, *ast.CallExpr, *ast.IndexExpr:
 		return Atom("b:" + w.Path(e))
 	}
 	return w.fresh()
@@ -592,8 +606,25 @@ func (w *Walker) stmt(s ast.Stmt, f Formula) Formula {
 			}
 		}
 		w.event(x, f)
+		var bdObj types.Object
+		var bdF Formula
+		if len(x.Lhs) == 1 && len(x.Rhs) == 1 {
+			if id, ok := x.Lhs[0].(*ast.Ident); ok && id.Name != "_" && w.isBoolExpr(x.Rhs[0]) {
+				if tv, ok := w.Info.Types[x.Rhs[0]]; ok && tv.Value == nil {
+					if o := w.Info.ObjectOf(id); o != nil && w.isLocal(o) {
+						bdObj, bdF = o, w.Cond(x.Rhs[0])
+					}
+				}
+			}
+		}
 		for _, l := range x.Lhs {
 			w.bumpLHS(l)
+		}
+		if bdObj != nil {
+			if w.boolDefs == nil {
+				w.boolDefs = map[types.Object]boolDef{}
+			}
+			w.boolDefs[bdObj] = boolDef{ver: w.ver[bdObj], f: bdF}
 		}
 	case *ast.IncDecStmt:
 		w.expr(x.X, f)
